@@ -693,6 +693,10 @@ class Env:
         if eff is not None:
             eff(it, ns2)
         ctx.trace.append(("call", con.target, {k: snapshot(v) for k, v in ns.items()}, result))
+        import inspect as _inspect
+
+        if _inspect.iscoroutinefunction(fn):
+            return Coro(lambda: result, fn.__qualname__)
         return result
 
     # ----------------------------------------------------------------- loops
@@ -754,6 +758,9 @@ class Env:
                 ns["seq"] = seqv.v if isinstance(seqv, SeqView) else seqv
             y = ctx.ghost.get("yielded")
             ns["yielded"] = y if y is not None else ctx.yielded
+            for gk, gv in ctx.ghost.items():
+                if isinstance(gk, str) and gk not in ns and gk.isidentifier():
+                    ns[gk] = gv
             ns["trace"] = ctx.trace
             if getattr(it, "old_self", None) is not None:
                 ns["old"] = it.old_self
@@ -807,6 +814,14 @@ class Env:
                     cur.term = new.term
                 else:
                     selfobj.fields[fld] = new
+        ghost_havoc = [k[6:] for k in inv.vars if k.startswith("ghost.")]
+        for gk in ghost_havoc:
+            cur = ctx.ghost.get(gk)
+            if isinstance(cur, (SBytes, SSeq)):
+                cur.term = ctx.fresh("h_ghost_" + gk, cur.term.sort())
+            elif cur is not None:
+                ctx.ghost[gk] = it.fresh(inv.vars["ghost." + gk], "h_ghost_" + gk)
+        ghost_head = {k: (v.term if isinstance(v, (SBytes, SSeq)) else v) for k, v in ctx.ghost.items() if isinstance(k, str)}
         if ms.has_yield:
             y = ctx.ghost.get("yielded")
             if not isinstance(y, SSeq):
@@ -865,6 +880,14 @@ class Env:
                     continue
                 if k in head_fields and head_fields[k] is not v and not same_value(head_fields[k], v):
                     raise Unsupported(f"loop {ordinal}: self.{k} changed but is not in the havoc set")
+        for gk, gv in ctx.ghost.items():
+            if not isinstance(gk, str) or gk in ghost_havoc or gk in ("yielded", "n_yields", "trace", idx_name):
+                continue
+            hv = ghost_head.get(gk)
+            cur = gv.term if isinstance(gv, (SBytes, SSeq)) else gv
+            if isinstance(gv, (SBytes, SSeq)):
+                if hv is None or not hv.eq(cur):
+                    raise Unsupported(f"loop {ordinal}: ghost {gk} changed but is not declared (vars['ghost.{gk}'])")
         for f in inv.inv:
             r = eval_clause(it, f, ns_now())
             ctx.oblige(f"{tag}.{f.__name__}.preserved", ops.truth_term(r))
